@@ -61,6 +61,7 @@ fn range(field: &str, u: &[u8], end: usize) -> Option<(usize, usize)> {
 }
 
 /// mut = {"op":"flip","field":F,"bit":i} | {"op":"trunc","len":n} | {"op":"cut","n":k} | {"op":"extend","n":k}
+///     | {"op":"grow_auth","n":k} | {"op":"shrink_auth","n":k}
 ///     | {"op":"splice","part":"header|body","other":idx} | {"op":"redirect"} | {"op":"set","field":F,"byte":b}
 pub fn mutate(local: &NodeId, d: &[u8], other: Option<&[u8]>, m: &Value, other_id: &NodeId) -> Option<Vec<u8>> {
     let op = m.get("op")?.as_str()?;
@@ -81,6 +82,29 @@ pub fn mutate(local: &NodeId, d: &[u8], other: Option<&[u8]>, m: &Value, other_i
             // a changed auth-data size moves the end of the masked region
             let auth = u16::from_be_bytes([u[37], u[38]]) as usize;
             Some(remask(local, &u, 39 + auth))
+        }
+        "grow_auth" => {
+            // k extra bytes at the end of the auth-data, auth-data size adjusted: still a well-formed datagram
+            let k = m.get("n")?.as_u64()? as usize;
+            let auth = u16::from_be_bytes([u[37], u[38]]) as usize;
+            let mut x = u[..end].to_vec();
+            x.extend(std::iter::repeat(0xa5).take(k));
+            x.extend_from_slice(&u[end..]);
+            let na = (auth + k) as u16;
+            x[37..39].copy_from_slice(&na.to_be_bytes());
+            Some(remask(local, &x, 39 + auth + k))
+        }
+        "shrink_auth" => {
+            let k = m.get("n")?.as_u64()? as usize;
+            let auth = u16::from_be_bytes([u[37], u[38]]) as usize;
+            if k == 0 || k > auth || end < k {
+                return None;
+            }
+            let mut x = u[..end - k].to_vec();
+            x.extend_from_slice(&u[end..]);
+            let na = (auth - k) as u16;
+            x[37..39].copy_from_slice(&na.to_be_bytes());
+            Some(remask(local, &x, 39 + auth - k))
         }
         "trunc" => {
             let len = m.get("len")?.as_u64()? as usize;
